@@ -247,6 +247,7 @@ void harness(void) {
 						CHECK(user->respCtx == subs[i].reply && user->parentId == subs[i].id, HN " the user handle carries the FIRST valid reply and its origin");
 					}
 					CHECK(user->err == KSI_OK && user->errMsg == NULL, HN " completed user handle carries no error");
+					CHECK(user->respCtx_free != NULL && ((KSI_AggregationResp *)user->respCtx)->ref == 1, HN " completed user handle is the sole owner of a live response object");
 #endif
 				} else {
 					CHECK(user->state == KSI_ASYNC_STATE_ERROR, HN " without a valid reply the user handle fails");
@@ -288,4 +289,9 @@ void harness(void) {
 #ifndef SHAPE_ALL_REFUSE
 	WITNESS_POINT("scenario ran to completion: every accepted copy came back");
 #endif
+	/* the observers let go: the HA request, the user handle and its response are released exactly once (a second
+	 * owner of the response would make this a double free), then the service is torn down */
+	KSI_HighAvailabilityRequest_free(haReq);
+	KSI_AsyncHandle_free(user);
+	KSI_AsyncService_free(ha);
 }
